@@ -1,4 +1,4 @@
 SPECIFICATION Spec
 CONSTANT N = 1
-INVARIANTS TransposeLaw PredLaws DimLaw DistLaws AreaLaws BoundaryLaws
+INVARIANTS TransposeLaw PredLaws DimLaw DistLaws AreaLaws BoundaryLaws ValidityLaws
 CHECK_DEADLOCK FALSE
